@@ -1,1 +1,323 @@
-import MesaModel.Model.Cont
+import MesaModel.Proofs.ContExp
+/-!
+# C10 — both continuous spaces keep every position and answer range / k-nearest / distance queries exactly
+
+Property theorems only (model: `Model/Cont.lean`; helper lemmas: `Proofs/ContArith.lean`,
+`Proofs/ContLegacy.lean`, `Proofs/ContExp.lean`).  Coordinates are exact (`Int`, units of 1/64),
+distances are compared squared.
+
+A *history* is any list of calls, accepted or rejected:
+legacy `LOp` = place / move / remove / get_neighbors (which builds the cache),
+experimental `EOp` = new agent / position assignment / remove.
+`lrun c ops` / `erun c cap ops` is the model state after the history on a fresh space with bounds `c`
+(and initial capacity `cap`); `lspec c ops` / `espec c ops` is the property's own bookkeeping of the
+same history: the agents placed and not removed, in order, and the value last assigned to each
+(`lspecStep`, `especStep`: no cache, no array, no index maps).
+-/
+namespace Mesa.Cont
+
+/-! ## the assignment rule (in bounds / wrapped on a torus / rejected) -/
+
+/-- Legacy: a position inside `[min, max)` is stored as it is; outside, a bounded space rejects it and
+    a torus stores a point inside the space that differs from it by whole multiples of the size. -/
+theorem C10_legacy_assignment_rule (c : LCfg) (hw : c.WF) (p : P2) :
+    (oob c p = false → torusAdj c p = .ok p) ∧
+    (oob c p = true → c.torus = false → torusAdj c p = .error .oob) ∧
+    (oob c p = true → c.torus = true → ∃ p', torusAdj c p = .ok p' ∧ oob c p' = false ∧
+      ∃ kx ky : Int, p' = (p.1 + kx * c.width, p.2 + ky * c.height)) :=
+  ⟨torusAdj_inside c p, torusAdj_reject c p, torusAdj_wrap c hw p⟩
+
+/-- Experimental: a position inside `[min, max]` is stored as it is; outside, a bounded space rejects
+    the assignment (and the setter then raises) and a torus stores a point inside the space. -/
+theorem C10_exp_assignment_rule (c : ECfg) (hw : c.WF) (p : Pos) :
+    (inBounds c.dims p = true → eassign c p = some p) ∧
+    (inBounds c.dims p = false → c.torus = false → eassign c p = none) ∧
+    (inBounds c.dims p = false → c.torus = true →
+      eassign c p = some (torusCorrect c.dims p) ∧ inBounds c.dims (torusCorrect c.dims p) = true) := by
+  refine ⟨fun h => by simp [eassign, h], fun h ht => by simp [eassign, h, ht], fun h ht => ?_⟩
+  exact ⟨by simp [eassign, h, ht], torusCorrect_inBounds _ _ hw⟩
+
+/-- every coordinate the torus correction produces is a periodic image of the given one -/
+theorem C10_wrap_is_periodic_image (lo w x : Int) (hw : 0 < w) :
+    lo ≤ lo + (x - lo) % w ∧ lo + (x - lo) % w < lo + w ∧ ∃ k : Int, lo + (x - lo) % w = x + k * w :=
+  ⟨(wrap_bounds lo w x hw).1, (wrap_bounds lo w x hw).2, wrap_congr lo w x⟩
+
+/-! ## positions and membership over all histories -/
+
+/-- Legacy, every history: `space.agents` is exactly the agents placed and not removed (in order of
+    first placement) and every agent's `pos` is the value last assigned to it — whatever was done to
+    other agents, and whether or not the position cache was built, patched or invalidated in between. -/
+theorem C10_legacy_positions_all_histories (c : LCfg) (ops : List LOp) :
+    (lrun c ops).agents = (lspec c ops).1 ∧ (lrun c ops).pos = (lspec c ops).2 :=
+  ⟨(lrun_refines c ops).keys, (lrun_refines c ops).pos⟩
+
+/-- Legacy frame: a call that does not assign to / remove agent `a` leaves `a.pos` alone. -/
+theorem C10_legacy_frame (c : LCfg) (ops : List LOp) (op : LOp) (a : Aid)
+    (h : ∀ b p, (op = .place b p ∨ op = .move b p ∨ op = .remove b) → b ≠ a) :
+    (lrun c (ops ++ [op])).pos a = (lrun c ops).pos a := by
+  rw [(lrun_refines c (ops ++ [op])).pos, (lrun_refines c ops).pos]
+  simp only [lspec, List.foldl_append, List.foldl_cons, List.foldl_nil]
+  cases op with
+  | place b p =>
+    have := h b p (Or.inl rfl)
+    simp only [lspecStep]; split <;> simp [upd, Ne.symm this]
+  | move b p =>
+    have := h b p (Or.inr (Or.inl rfl))
+    simp only [lspecStep]; split <;> simp [upd, Ne.symm this]
+  | remove b =>
+    have := h b (0, 0) (Or.inr (Or.inr rfl))
+    simp only [lspecStep]; split <;> simp [upd, Ne.symm this]
+  | nbrs p r incl => rfl
+
+/-- Legacy: every agent in the space has a position, and it lies inside the bounds. -/
+theorem C10_legacy_positions_inside (c : LCfg) (hw : c.WF) (ops : List LOp) :
+    ∀ a ∈ (lrun c ops).agents, ∃ p, (lrun c ops).pos a = some p ∧ oob c p = false := by
+  rw [(C10_legacy_positions_all_histories c ops).1, (C10_legacy_positions_all_histories c ops).2]
+  exact lspec_inside c hw ops
+
+/-- Legacy, every history: whenever the position cache exists it is coherent — `_index_to_agent` lists
+    the agents in dict order, `_agent_to_index` is its inverse (never `None`), and row `i` of
+    `_agent_points` is the position of agent `i`. -/
+theorem C10_legacy_cache_coherent (c : LCfg) (ops : List LOp) : LInv (lrun c ops) :=
+  (lrun_refines c ops).inv
+
+/-- Experimental, every history and every initial capacity: `space.agents` is exactly the agents created
+    and not removed (in order), every agent reads back the value last assigned to it — unaffected by
+    growth of the array, by compaction on removal and by assignments to other agents — and an agent
+    that is not in the space has no row. -/
+theorem C10_exp_positions_all_histories (c : ECfg) (cap : Nat) (ops : List EOp) :
+    (erun c cap ops).active = (espec c ops).1 ∧
+    (∀ a p, (espec c ops).2 a = some p → getPos (erun c cap ops) a = .ok p) ∧
+    (∀ a, a ∉ (espec c ops).1 → getPos (erun c cap ops) a = .error .key) := by
+  have h := erun_refines c cap ops
+  exact ⟨h.active, h.pos, fun a ha => getPos_of_not_mem h.inv (by rw [h.active]; exact ha)⟩
+
+/-- Experimental, every history: the array bookkeeping is consistent — `_n_agents` is the number of agents
+    and does not exceed the capacity (so every agent has a row), and `_agent_to_index` maps `active[i]`
+    to `i` and nothing else to `i`. -/
+theorem C10_exp_index_maps_consistent (c : ECfg) (cap : Nat) (ops : List EOp) :
+    let s := erun c cap ops
+    s.n = s.active.length ∧ s.n ≤ s.cap ∧ s.active.Nodup ∧ ∀ a i, s.a2i a = some i ↔ s.active[i]? = some a :=
+  let h := (erun_refines c cap ops).inv
+  ⟨h.len, h.cap, h.nodup, h.idx⟩
+
+/-- Experimental: every assigned position lies inside the bounds. -/
+theorem C10_exp_positions_inside (c : ECfg) (hw : c.WF) (ops : List EOp) :
+    ∀ a p, (espec c ops).2 a = some p → inBounds c.dims p = true := by
+  suffices H : ∀ (ops : List EOp) (st : List Aid × (Aid → Option Pos)),
+      (∀ a p, st.2 a = some p → inBounds c.dims p = true) →
+      ∀ a p, (ops.foldl (especStep c) st).2 a = some p → inBounds c.dims p = true from
+    H ops _ (by simp)
+  intro ops
+  induction ops with
+  | nil => intro st h; exact h
+  | cons op ops ih =>
+    intro st h
+    apply ih
+    cases op with
+    | new a =>
+      simp only [especStep]; split
+      · exact h
+      · intro b q hb
+        by_cases hba : b = a
+        · simp [upd, hba] at hb
+        · simp only [upd, hba, if_false] at hb; exact h b q hb
+    | set a p =>
+      simp only [especStep]; split
+      · split
+        · rename_i p' hp
+          intro b q hb
+          by_cases hba : b = a
+          · simp only [upd, hba, if_true, Option.some.injEq] at hb; subst hb
+            exact eassign_inBounds c hw hp
+          · simp only [upd, hba, if_false] at hb; exact h b q hb
+        · exact h
+      · exact h
+    | remove a =>
+      simp only [especStep]; split
+      · intro b q hb
+        by_cases hba : b = a
+        · simp [upd, hba] at hb
+        · simp only [upd, hba, if_false] at hb; exact h b q hb
+      · exact h
+
+/-! ## radius queries -/
+
+/-- Legacy, every history: `get_neighbors(p, r, include_center)` returns exactly the agents in the space
+    whose squared distance to `p` is at most `r²` (those at distance 0 only if `include_center`), computed
+    from their true positions — no matter whether the cache was built before, patched by moves, or is built
+    by this call — and the call changes neither `space.agents` nor any position. -/
+theorem C10_legacy_neighbors_exact (c : LCfg) (ops : List LOp) (p : P2) (r : Int) (incl : Bool) :
+    (getNeighbors (lrun c ops) p r incl).2 = .ok (nbrSpec c (lspec c ops).1 (lspec c ops).2 p r incl) ∧
+    (lrun c (ops ++ [.nbrs p r incl])).agents = (lrun c ops).agents ∧
+    (lrun c (ops ++ [.nbrs p r incl])).pos = (lrun c ops).pos := by
+  have h := lrun_refines c ops
+  obtain ⟨s1, h1, _, _, h4, h5⟩ := getNeighbors_spec h.inv p r incl
+  refine ⟨by rw [h1, h.cfg, h.keys, h.pos], ?_, ?_⟩
+  · simp only [lrun, List.foldl_append, List.foldl_cons, List.foldl_nil, lstep]
+    show (getNeighbors (lrun c ops) p r incl).1.a2i.keys = _
+    rw [h1]; exact h5
+  · simp only [lrun, List.foldl_append, List.foldl_cons, List.foldl_nil, lstep]
+    show (getNeighbors (lrun c ops) p r incl).1.pos = _
+    rw [h1]; exact h4
+
+/-- … read as a set: an agent is returned iff it is in the space and within the radius. -/
+theorem C10_legacy_neighbors_mem (c : LCfg) (ops : List LOp) (p : P2) (r : Int) (incl : Bool) (a : Aid) :
+    a ∈ nbrSpec c (lspec c ops).1 (lspec c ops).2 p r incl ↔
+      a ∈ (lrun c ops).agents ∧ ∃ q, (lrun c ops).pos a = some q ∧ ldist2 c q p ≤ r * r ∧
+        (incl = true ∨ 0 < ldist2 c q p) := by
+  rw [(C10_legacy_positions_all_histories c ops).1, (C10_legacy_positions_all_histories c ops).2]
+  unfold nbrSpec
+  rw [List.mem_filter]
+  constructor
+  · rintro ⟨h1, h2⟩
+    refine ⟨h1, ?_⟩
+    cases hq : (lspec c ops).2 a with
+    | none => simp [hq] at h2
+    | some q => simp only [hq] at h2; exact ⟨q, rfl, by simpa using h2⟩
+  · rintro ⟨h1, q, hq, h2, h3⟩
+    exact ⟨h1, by simp only [hq]; simpa using ⟨h2, h3⟩⟩
+
+/-- Experimental, every history: `get_agents_in_radius(pt, r)` returns exactly the pairs (agent, squared
+    distance) of the agents in the space whose distance from `pt` to their true position is at most `r`,
+    each agent once. -/
+theorem C10_exp_radius_exact (c : ECfg) (cap : Nat) (ops : List EOp) (pt : Pos) (r : Int) :
+    let s := erun c cap ops
+    (∀ a d, (a, d) ∈ agentsInRadius s pt r ↔
+      a ∈ s.active ∧ ∃ q, getPos s a = .ok q ∧ d = edist2 c pt q ∧ 0 ≤ r ∧ d ≤ r * r) ∧
+    ((agentsInRadius s pt r).map (·.1)).Nodup := by
+  have h := erun_refines c cap ops
+  refine ⟨fun a d => ?_, ?_⟩
+  · unfold agentsInRadius
+    rw [List.mem_filter, mem_zip_calcD2 h.inv, h.cfg]
+    constructor
+    · rintro ⟨⟨q, h1, h2, h3⟩, h4⟩
+      exact ⟨h1, q, h2, h3, by simpa using h4⟩
+    · rintro ⟨h1, q, h2, h3, h4⟩
+      exact ⟨⟨q, h1, h2, h3⟩, by simpa using h4⟩
+  · have : ((agentsInRadius (erun c cap ops) pt r).map (·.1)).Sublist (erun c cap ops).active := by
+      rw [← zip_calcD2_fst h.inv pt]
+      exact (List.filter_sublist).map _
+    exact h.inv.nodup.sublist this
+
+/-- Experimental: `calculate_distances(pt)` pairs every agent in the space with the distance to its
+    true position. -/
+theorem C10_exp_distances_exact (c : ECfg) (cap : Nat) (ops : List EOp) (pt : Pos) (a : Aid) (d : Int) :
+    let s := erun c cap ops
+    (∃ l, distancesOf s pt none = .ok l ∧ ((a, d) ∈ l ↔
+      a ∈ s.active ∧ ∃ q, getPos s a = .ok q ∧ d = edist2 c pt q)) := by
+  have h := erun_refines c cap ops
+  refine ⟨_, rfl, ?_⟩
+  rw [mem_zip_calcD2 h.inv, h.cfg]
+  constructor
+  · rintro ⟨q, h1, h2, h3⟩; exact ⟨h1, q, h2, h3⟩
+  · rintro ⟨h1, q, h2, h3⟩; exact ⟨q, h1, h2, h3⟩
+
+/-! ## k nearest -/
+
+/-- Experimental, every history, every `argpartition` meeting numpy's documented post-condition, every
+    `1 ≤ k ≤ n`: `get_k_nearest_agents(pt, k)` returns `k` pairwise distinct agents of the space, each with
+    the squared distance to its true position, and no agent left out is nearer than a returned one. -/
+theorem C10_exp_k_nearest (argpart : List Int → Nat → List Nat) (hap : ArgPartSpec argpart)
+    (c : ECfg) (cap : Nat) (ops : List EOp) (pt : Pos) (k : Nat) :
+    let s := erun c cap ops
+    1 ≤ k → k ≤ s.active.length →
+    ∃ res, kNearest argpart s pt k = .ok res ∧ res.length = k ∧ (res.map (·.1)).Nodup ∧
+      (∀ ad ∈ res, ad.1 ∈ s.active ∧ ∃ q, getPos s ad.1 = .ok q ∧ ad.2 = edist2 c pt q) ∧
+      (∀ ad ∈ res, ∀ b ∈ s.active, b ∉ res.map (·.1) →
+        ∀ q, getPos s b = .ok q → ad.2 ≤ edist2 c pt q) := by
+  intro s hk hkn
+  have h := erun_refines c cap ops
+  obtain ⟨res, h1, h2, h3, h4, h5⟩ := kNearest_spec hap h.inv pt hk (by rw [h.inv.len]; exact hkn)
+  refine ⟨res, h1, h2, h3, ?_, ?_⟩
+  · intro ad had
+    obtain ⟨q, hq1, hq2, hq3⟩ := (mem_zip_calcD2 h.inv pt ad.1 ad.2).mp (h4 ad had)
+    exact ⟨hq1, q, hq2, by rw [← h.cfg]; exact hq3⟩
+  · intro ad had b hb hout q hq
+    have := h5 ad had (b, edist2 s.cfg pt q) ((mem_zip_calcD2 h.inv pt b _).mpr ⟨q, hb, hq, rfl⟩) hout
+    rw [← h.cfg]; exact this
+
+/-- `k = 0` returns nothing; `k` larger than the number of agents is rejected (`ValueError`). -/
+theorem C10_exp_k_nearest_range (argpart : List Int → Nat → List Nat) (c : ECfg) (cap : Nat)
+    (ops : List EOp) (pt : Pos) (k : Nat) :
+    let s := erun c cap ops
+    (k = 0 → kNearest argpart s pt k = .ok []) ∧
+    (s.active.length < k → kNearest argpart s pt k = .error .value) := by
+  intro s
+  have h := (erun_refines c cap ops).inv
+  refine ⟨fun hk => by simp [kNearest, hk], fun hk => ?_⟩
+  have : (calcD2 s pt).length < k := by rw [calcD2_length h, h.len]; exact hk
+  have hk0 : k ≠ 0 := by omega
+  simp [kNearest, hk0, this]
+
+/-- The assumption on `argpartition` is satisfiable: the complete stable sort that the driver executes
+    in the correspondence check meets it. -/
+theorem C10_argsortPart_spec : ArgPartSpec argsortPart := argsortPart_spec
+
+/-! ## distances and headings -/
+
+/-- On a torus of circumference `s`, for coordinates at most `s` apart (any two points of the space), the
+    per-axis separation every distance computation uses is the distance to the nearest periodic image:
+    it is below `|a - b + k·s|` for every integer `k` and equals it for some `k ∈ {-1, 0, 1}`. -/
+theorem C10_torus_axis_is_nearest_image (s a b : Int) (hs : 0 < s) (hd : iabs (a - b) ≤ s) :
+    (∀ k : Int, axisDist true s a b ≤ iabs (a - b + k * s)) ∧
+    (axisDist true s a b = iabs (a - b) ∨ axisDist true s a b = iabs (a - b + 1 * s) ∨
+      axisDist true s a b = iabs (a - b + (-1) * s)) :=
+  ⟨axisDist_torus_le_image s a b hs hd, axisDist_torus_attained s a b hd⟩
+
+/-- without a torus the per-axis separation is `|a - b|`: the distance is Euclidean -/
+theorem C10_flat_axis_is_abs (s a b : Int) : axisDist false s a b = iabs (a - b) := axisDist_flat s a b
+
+/-- Legacy `get_distance` is symmetric. -/
+theorem C10_legacy_distance_symmetric (c : LCfg) (p q : P2) : ldist2 c p q = ldist2 c q p := by
+  simp [ldist2, axisDist_comm c.torus _ p.1 q.1, axisDist_comm c.torus _ p.2 q.2]
+
+/-- Legacy `get_heading(p, q)` has the length of `get_distance(p, q)` (torus or not). -/
+theorem C10_legacy_heading_length (c : LCfg) (hw : c.WF) (p q : P2) :
+    sq (lheading c p q).1 + sq (lheading c p q).2 = ldist2 c p q := by
+  unfold lheading ldist2
+  rw [axisHeading_sq c.torus _ p.1 q.1 (by have := hw.1; unfold LCfg.width; omega),
+    axisHeading_sq c.torus _ p.2 q.2 (by have := hw.2; unfold LCfg.height; omega)]
+
+/-- Experimental `calculate_distances` is symmetric in its two points. -/
+theorem C10_exp_distance_symmetric (c : ECfg) (p q : Pos) : edist2 c p q = edist2 c q p :=
+  dist2Aux_comm _ _ _ _
+
+/-- Experimental `calculate_difference_vector` has the length of `calculate_distances` (any number of
+    dimensions, torus or not). -/
+theorem C10_exp_difference_length (c : ECfg) (hw : c.WF) (p q : Pos) :
+    norm2 (ediff c p q) = edist2 c p q :=
+  diffAux_norm2 _ _ _ _ (fun d hd => by have := hw d hd; omega)
+
+/-! ## non-vacuity: concrete histories (torus with negative origin; capacity 0 with growth and compaction) -/
+section Examples
+
+def exL : LCfg := { xmin := -320, xmax := 320, ymin := 0, ymax := 640, torus := true }
+def exOps : List LOp :=
+  [.place 1 (0, 64), .place 2 (700, 64), .nbrs (0, 64) 64 true, .move 1 (-330, 700), .place 3 (9999, 0) ,
+   .remove 2, .move 3 (0, 0)]
+example : exL.WF := ⟨by decide, by decide⟩
+example : (lrun exL exOps).agents = [1, 3] := by decide
+example : (lrun exL exOps).pos 1 = some (310, 60) := by decide
+example : (getNeighbors (lrun exL (exOps.take 4)) (-310, 50) 64 true).2 = .ok [1] := by rfl
+example : (getNeighbors (lrun exL (exOps.take 4)) (-310, 50) 300 true).2 = .ok [1, 2] := by rfl
+example : ((lrun exL (exOps.take 4)).pts) = some [(310, 60), (60, 64)] := by decide
+
+def exE : ECfg := { dims := [(-64, 64), (0, 128), (0, 64)], torus := false }
+def exEOps : List EOp :=
+  [.new 1, .set 1 [0, 0, 0], .new 2, .set 2 [64, 128, 64], .new 3, .set 3 [10, 10, 10], .set 3 [65, 0, 0],
+   .remove 1, .new 4, .set 4 [-64, 1, 2]]
+example : exE.WF := by
+  intro d hd; simp [exE] at hd; rcases hd with rfl | rfl | rfl <;> decide
+example : (erun exE 0 exEOps).active = [2, 3, 4] := by decide
+example : ((erun exE 0 exEOps).n, (erun exE 0 exEOps).cap) = (3, 3) := by decide
+example : getPos (erun exE 0 exEOps) 3 = .ok [10, 10, 10] := by rfl
+example : (espec exE exEOps).2 3 = some [10, 10, 10] := by decide
+example : agentsInRadius (erun exE 0 exEOps) [0, 0, 0] 65 = [(3, 300), (4, 4101)] := by decide
+/-- one admissible `argpartition` answer for the three distances `[24576, 300, 4101]` and `kth = 1` -/
+example : kNearest (fun _ _ => [1, 2, 0]) (erun exE 0 exEOps) [0, 0, 0] 2 = .ok [(3, 300), (4, 4101)] := by
+  rfl
+
+end Examples
+
+end Mesa.Cont
